@@ -20,6 +20,12 @@ package main
 //   - key chains: the keys are the plain small numbers or integers and floats one apart around +-2^31, 2^32, 2^53 and the
 //     ends of the int64 range, so that "next to" means "told apart only by an exact comparison".
 
+//
+// Family added after seeding round 6 (seed C06-14, in the model: Failed / FailedLib):
+//   - an input FAILS inside a call (deadline, cancellation, depth limit, error: failing.go) after the call changed its own
+//     parameters, which are named like the session's variables, or inside a function of the library; the probes of the
+//     inputs that follow (and functions defined before) still see the session's own bindings.
+
 import (
 	"bytes"
 	"encoding/json"
@@ -50,15 +56,15 @@ type contLine struct {
 	Val map[string][]int `json:"val"`
 }
 
-func contCfg(kind, sizes string, small, maxOps int, cow, coa, own, emit bool) string {
+func contCfg(kind, sizes string, small, maxOps int, cow, coa, own, rof, emit bool) string {
 	b := func(x bool) string {
 		if x {
 			return "TRUE"
 		}
 		return "FALSE"
 	}
-	return fmt.Sprintf("CONSTANTS\n Vars = {\"a\", \"b\", \"c\"}\n Sizes = %s\n Small = %d\n MaxOps = %d\n CopyOnWrite = %s\n CopyOnAppend = %s\n OwnFrames = %s\n Kind = %q\n EmitOn = %s\nINIT Init\nNEXT Next\nVIEW view\nINVARIANT Refines\n",
-		sizes, small, maxOps, b(cow), b(coa), b(own), kind, b(emit))
+	return fmt.Sprintf("CONSTANTS\n Vars = {\"a\", \"b\", \"c\"}\n Sizes = %s\n Small = %d\n MaxOps = %d\n CopyOnWrite = %s\n CopyOnAppend = %s\n OwnFrames = %s\n RestoreOnFailure = %s\n Kind = %q\n EmitOn = %s\nINIT Init\nNEXT Next\nVIEW view\nINVARIANT Refines\n",
+		sizes, small, maxOps, b(cow), b(coa), b(own), b(rof), kind, b(emit))
 }
 
 // contForm is how a behaviour of the model is written as grol source: variant selects the source form of the initial value
@@ -130,6 +136,9 @@ func instantiateContainers(h []contOp, kind string, f contForm) (inputs []string
 			if strings.Contains(all, hp[0]+"(") {
 				defs = append(defs, hp[1])
 			}
+		}
+		if failNeedsPrelude(inputs) {
+			defs = append(defs, failPrelude())
 		}
 		inputs[0] = strings.Join(defs, "; ") + "; " + inputs[0]
 	}()
@@ -294,6 +303,31 @@ func instantiateContainers(h []contOp, kind string, f contForm) (inputs []string
 				return nil, false
 			}
 			inputs = append(inputs, appendForm(op.Y, op.X, op.Z, i))
+		case "fail", "faillib":
+			// how the call fails and, for the library, which function and whether a function of the session calls it: source form
+			fsel := int(c06Mix(f.Salt)>>8&0xfffff) + 5*i
+			how := []string{"cancel", "depth", "error", "cancel", "error", "depth", "cancel", "error"}[fsel%8]
+			if fsel%32 == 0 {
+				how = "deadline" // (milliseconds each: one in thirty-two)
+			}
+			if op.Op == "faillib" {
+				where := "lib"
+				if (fsel/32)%2 == 1 {
+					where = "lib-in-user"
+				}
+				inputs = append(inputs, failInput(how, where, "a, b, c", "c, a, b", "", fsel/3))
+				break
+			}
+			var pre string
+			if kind == "arr" {
+				pre = fmt.Sprintf("%[1]s = %[1]s + %[2]d; %[1]s[0] = %[2]d", op.Y, v)
+			} else {
+				pre = fmt.Sprintf("%s[%s] = %d", op.Y, kc.lit(k).Lit, v)
+				if ks := keys[op.X]; len(ks) > 0 {
+					pre += fmt.Sprintf("; %s[%s] = %d", op.Y, kc.addr(ks[0], twinAddr), v)
+				}
+			}
+			inputs = append(inputs, failInput(how, "user", op.Y, op.X, pre, fsel))
 		case "call":
 			if kind == "arr" {
 				inputs = append(inputs, fmt.Sprintf("%s = mut(%s, %d)", op.Y, op.X, v))
@@ -303,7 +337,7 @@ func instantiateContainers(h []contOp, kind string, f contForm) (inputs []string
 		default:
 			return nil, false
 		}
-		if variant > 0 && op.Op != "init" {
+		if variant > 0 && op.Op != "init" && op.Op != "fail" && op.Op != "faillib" {
 			tgt := op.Y
 			if op.Y == "" {
 				tgt = op.X
@@ -359,6 +393,9 @@ func expectedPrint(val map[string][]int, h []contOp, kind string, kc *keyChain) 
 
 // c06Target is the binding the last operation of a history assigns (every other binding keeps its value).
 func c06Target(op contOp) string {
+	if op.Op == "fail" || op.Op == "faillib" {
+		return "-" // (an input that fails assigns nothing)
+	}
 	if op.Y != "" {
 		return op.Y
 	}
@@ -368,7 +405,7 @@ func c06Target(op contOp) string {
 // c06Judge compares the probes of a session with the prediction for the last one. Every probe prints the lines of `want`
 // (bindings, kinds) and, when side is set, a line with the container the initial value was cut from and the holder of the
 // values stored at each step. target "" = do not look at the previous probe.
-func c06Judge(obs []inObs, want string, side bool, target string) (bad bool, msg string) {
+func c06Judge(inputs []string, obs []inObs, want string, side bool, target string) (bad bool, msg string) {
 	nl := strings.Count(want, "\n")
 	var probes [][]string // the lines of every probe
 	first := ""
@@ -383,8 +420,8 @@ func c06Judge(obs []inObs, want string, side bool, target string) (bad bool, msg
 		}
 		probes = append(probes, lines)
 	}
-	for _, o := range obs {
-		if o.Err {
+	for i, o := range obs {
+		if o.Err && !(i < len(inputs) && isFailInput(inputs[i])) {
 			return true, "an input failed: " + o.Val
 		}
 	}
@@ -413,6 +450,22 @@ func c06Judge(obs []inObs, want string, side bool, target string) (bad bool, msg
 	return bad, msg
 }
 
+// c06Mix: a second hash of the transition's salt (the bits of the salt itself are correlated in the sampled transitions: the
+// sample is a condition on them).
+func c06Mix(salt uint32) uint32 {
+	h := (salt ^ salt>>13) * 0x5bd1e995
+	return h ^ h>>15
+}
+
+// c06Run runs a session (sessions with failing inputs: under their limits, failing.go).
+func c06Run(inputs []string) []inObs {
+	if hasFailInput(inputs) {
+		return runFailHistory(inputs, false)
+	}
+	obs, _ := runHistory(inputs, RunOpt{})
+	return obs
+}
+
 func contSignature(h []contOp, kind string) string {
 	last := h[len(h)-1]
 	return fmt.Sprintf("container-aliasing-%s-after-%s", kind, last.Op)
@@ -436,20 +489,20 @@ func checkC06(c *Ctx) {
 		emitted[i] = make(chan tlcDone, 1)
 		go func(ch chan tlcDone, sp space) {
 			// one worker: records/functions in the history are shared between states and TLC normalises them lazily (not thread safe)
-			r, err := c.TLC(TLCOpt{Spec: "Containers", Cfg: contCfg(sp.kind, sp.sizes, sp.small, sp.maxOps, true, true, true, true), Workers: 1, Heap: "8g"})
+			r, err := c.TLC(TLCOpt{Spec: "Containers", Cfg: contCfg(sp.kind, sp.sizes, sp.small, sp.maxOps, true, true, true, true, true), Workers: 1, Heap: "8g"})
 			ch <- tlcDone{r, err}
 		}(emitted[i], sp)
 	}
 	// 1. design level: each deviation of the pinned tree breaks the refinement
 	type deviation struct {
-		kind          string
-		cow, coa, own bool
+		kind               string
+		cow, coa, own, rof bool
 	}
-	devs := []deviation{{"arr", false, true, true}, {"map", true, false, true}, {"map", false, true, true}, {"arr", true, true, false}}
+	devs := []deviation{{"arr", false, true, true, true}, {"map", true, false, true, true}, {"map", false, true, true, true}, {"arr", true, true, false, true}, {"arr", true, true, true, false}}
 	devDone := make(chan error, len(devs))
 	for _, dev := range devs {
 		go func(dev deviation) {
-			r, err := c.TLC(TLCOpt{Spec: "Containers", Cfg: contCfg(dev.kind, "{3}", 2, 3, dev.cow, dev.coa, dev.own, false), Workers: 2, AllowError: true})
+			r, err := c.TLC(TLCOpt{Spec: "Containers", Cfg: contCfg(dev.kind, "{3}", 2, 3, dev.cow, dev.coa, dev.own, dev.rof, false), Workers: 2, AllowError: true})
 			if err == nil && r.InvViolated != "Refines" {
 				err = fmt.Errorf("Containers.tla with deviation %+v did not violate Refines (vacuous model): %s", dev, r.ErrText)
 			}
@@ -458,10 +511,15 @@ func checkC06(c *Ctx) {
 	}
 
 	chains, err := c06Chains()
+	if err == nil {
+		err = failCalibrate()
+	}
 	if err != nil {
 		c.Infra(err)
 		return
 	}
+	failInputs, failMissed := 0, 0 // inputs meant to fail inside a call / those without a deadline that did not fail
+	failHow := map[string]int{}    // how they failed (the start of the error message)
 	seen := map[string]bool{}
 	usedChains := map[string]int{}
 	for si, sp := range spaces {
@@ -483,6 +541,9 @@ func checkC06(c *Ctx) {
 			if sampled && (uint64(salt^salt>>15)&0xffff)*uint64(stride)>>16 != 0 {
 				return nil
 			}
+			if sampled && c06Mix(salt)>>31 == 1 && bytes.Contains(line, []byte(`"op":"fail`)) {
+				return nil // (10 instances per state, and the witness histories that contain one: the sample takes every other one of them)
+			}
 			var g contLine
 			if err := json.Unmarshal(line, &g); err != nil {
 				return err
@@ -490,6 +551,7 @@ func checkC06(c *Ctx) {
 			if op := g.H[len(g.H)-1].Op; !c.Thorough() && (op == "concat" || op == "overwrite") && salt>>31 == 1 {
 				return nil // (27 and 18 instances per state: the sample takes every other one of them)
 			}
+
 			form := contForm{Salt: salt, Chain: chains[0]}
 			if n%2 == 1 { // every other behaviour with other source forms of its initial value and copies, and other keys
 				form.Variant = 1 + int(salt>>9)%30
@@ -510,7 +572,18 @@ func checkC06(c *Ctx) {
 				return nil
 			}
 			seen[key] = true
-			obs, _ := runHistory(inputs, RunOpt{})
+			obs := c06Run(inputs)
+			for i, in := range inputs {
+				if isFailInput(in) {
+					failInputs++
+					if obs[i].Err {
+						failHow[strings.SplitN(strings.TrimPrefix(strings.TrimPrefix(obs[i].Val, "panic: "), "<err: "), ":", 2)[0]]++
+					}
+					if !obs[i].Err && !strings.Contains(in, c10ShortMark) { // (a deadline can fire too late on a loaded machine)
+						failMissed++
+					}
+				}
+			}
 			nonEmpty := 0
 			for _, v := range g.Val {
 				if len(v) > 0 {
@@ -527,7 +600,7 @@ func checkC06(c *Ctx) {
 				c.Sample(map[string]any{"kind": sp.kind, "inputs": inputs, "predicted": g.Val})
 			}
 			want := expectedPrint(g.Val, g.H, sp.kind, form.Chain)
-			if bad, msg := c06Judge(obs, want, form.Variant > 0, c06Target(last)); bad {
+			if bad, msg := c06Judge(inputs, obs, want, form.Variant > 0, c06Target(last)); bad {
 				c.Fail(contSignature(g.H, sp.kind), fmt.Sprintf("after %+v: %s", last, msg),
 					map[string]any{"check": "gen", "kind": sp.kind, "inputs": inputs, "want": want, "variant": form.Variant, "target": c06Target(last)})
 			} else {
@@ -545,6 +618,12 @@ func checkC06(c *Ctx) {
 		}
 		c.Note("Containers %s: %d states, %d transitions emitted, sessions by last operation %v", sp.kind, r.Distinct, n, opsSeen)
 	}
+	if failInputs == 0 || failMissed > 0 {
+		c.Infra(fmt.Errorf("C06: %d of %d inputs meant to fail inside a call did not fail (those sessions test nothing)", failMissed, failInputs))
+		return
+	}
+	c.Cov("inputs_failing_inside_a_call", failInputs)
+	c.Cov("inputs_failing_inside_a_call_by_error", failHow)
 	c.Cov("map_key_chains", usedChains)
 	for range devs {
 		if err := <-devDone; err != nil {
@@ -552,7 +631,7 @@ func checkC06(c *Ctx) {
 			return
 		}
 	}
-	c.Cov("design_counterexamples", "CopyOnWrite=FALSE (arrays, maps), CopyOnAppend=FALSE and OwnFrames=FALSE each violate Refines (aliasing through a shared store / a shared parameter binding)")
+	c.Cov("design_counterexamples", "CopyOnWrite=FALSE (arrays, maps), CopyOnAppend=FALSE, OwnFrames=FALSE and RestoreOnFailure=FALSE each violate Refines (aliasing through a shared store / a shared parameter binding / the frame of a failed call)")
 	// binding self-test: a session whose recorded probe is perturbed in one binding / one kind / the side line is rejected
 	{
 		h := []contOp{{Op: "init", N: 2}, {Op: "copy", X: "a", Y: "b"}, {Op: "twin", X: "b", Which: 1, V: -1}}
@@ -560,7 +639,7 @@ func checkC06(c *Ctx) {
 		inputs, _ := instantiateContainers(h, "arr", contForm{Variant: 1, Chain: chains[0]})
 		want := expectedPrint(val, h, "arr", chains[0])
 		obs, _ := runHistory(inputs, RunOpt{})
-		if bad, msg := c06Judge(obs, want, true, "b"); bad {
+		if bad, msg := c06Judge(inputs, obs, want, true, "b"); bad {
 			c.Fail("container-aliasing-arr-after-twin", "self-test session: "+msg, map[string]any{"check": "gen", "kind": "arr", "inputs": inputs, "want": want, "variant": 1, "target": "b"})
 		}
 		for _, perturb := range []func(o []inObs){
@@ -570,7 +649,7 @@ func checkC06(c *Ctx) {
 		} {
 			o2 := append([]inObs{}, obs...)
 			perturb(o2)
-			if bad, _ := c06Judge(o2, want, true, "b"); !bad {
+			if bad, _ := c06Judge(inputs, o2, want, true, "b"); !bad {
 				c.Infra(fmt.Errorf("C06: a perturbed probe was accepted (vacuous binding): %q", o2[len(o2)-1].Out))
 				return
 			}
@@ -635,7 +714,7 @@ func replayC06(rp map[string]any) (bool, string) {
 	b, _ := json.Marshal(rp["inputs"])
 	_ = json.Unmarshal(b, &inputs)
 	want, _ := rp["want"].(string)
-	obs, _ := runHistory(inputs, RunOpt{})
+	obs := c06Run(inputs)
 	if chk, _ := rp["check"].(string); chk == "pinned" {
 		if obs[0].Err || obs[0].Out != want {
 			return false, fmt.Sprintf("printed %q (err=%v), want %q", obs[0].Out, obs[0].Err, want)
@@ -644,7 +723,7 @@ func replayC06(rp map[string]any) (bool, string) {
 	}
 	v, _ := rp["variant"].(float64)
 	target, _ := rp["target"].(string)
-	if bad, msg := c06Judge(obs, want, v > 0, target); bad {
+	if bad, msg := c06Judge(inputs, obs, want, v > 0, target); bad {
 		return false, msg
 	}
 	return true, ""
@@ -822,6 +901,9 @@ func mapStep(keys map[string][]int, op contOp, i int) (k int, ok bool) {
 	case "overwrite":
 		k = end(op.X, op.Which)
 		keys[op.Y] = clone(op.X)
+	case "fail": // (the key the failing call adds to its own parameter)
+		k = 14 + 2*i
+	case "faillib":
 	case "append":
 		k = 14 + 2*i
 		keys[op.Y] = append(clone(op.X), k)
